@@ -818,9 +818,10 @@ func (x *fx) appendBuiltin(s, t *Val, stype, ttype types.Type, set func(*Val)) {
 	x.assume("(= " + newLen + " " + x.iadd(slLen(s.S), tl) + ")")
 	x.assume(x.lenBound(newLen))
 	inPlace := x.ile(newLen, slCap(s.S))
-	// result slice
-	res := x.havocVal("append", stype)
+	// result slice (the fresh reference is allocated first so that the result's
+	// validity "base < top" is stated against the allocation counter after it)
 	ref := x.newRef("append")
+	res := x.havocVal("append", stype)
 	x.assume(fmt.Sprintf("(=> %s (and (= (s-base %s) (s-base %s)) (= (s-off %s) (s-off %s)) (= (s-cap %s) (s-cap %s))))", inPlace, res.S, s.S, res.S, s.S, res.S, s.S))
 	x.assume(fmt.Sprintf("(=> (not %s) (and (= (s-base %s) %s) (= (s-off %s) %s) %s))", inPlace, res.S, ref, res.S, x.idxConst(0), x.ile(newLen, slCap(res.S))))
 	x.assume("(= " + slLen(res.S) + " " + newLen + ")")
